@@ -98,6 +98,11 @@ def build_policy(case: dict[str, Any]) -> Any:
                                                  multiplier=1.0, max_delay=case["wait"], jitter=False)
     if kind == "noseed":
         return NoSeedPolicy()
+    if kind == "cause_type":
+        # retry while the failure was CAUSED by a KeyError (the predicate walks the __cause__ chain)
+        from workflows.retry_policy import retry_if_exception_cause_type
+
+        return retry_policy(retry=retry_if_exception_cause_type(KeyError), wait=wait_fixed(case["wait"]), stop=build_stop(case["stop"]))
     retry = retry_if_exception_type(RuntimeError) if "retry_type" in case else None
     return retry_policy(retry=retry, wait=wait_fixed(case["wait"]), stop=build_stop(case["stop"]))
 
@@ -127,6 +132,12 @@ def cases(tier: str) -> list[dict[str, Any]]:
     # success after k failures
     for k in (0, 1, 2):
         cs.append({"stop": ("attempt", 4), "wait": 1, "dur": 0.7, "succeed_at": k, "clause": "attempt_budget"})
+    # a predicate on the CAUSE of the failure; every attempt's error is chained from one and the same cause object (a cached
+    # transport error), or is the very same exception instance each time (an already-failed future awaited again)
+    for shared in ("cause", "instance"):
+        for n in (2, 4):
+            cs.append({"policy": "cause_type", "stop": ("attempt", n), "wait": 0, "dur": 0.0, "shared_exception": shared, "clause": "attempt_budget"})
+        cs.append({"policy": "cause_type", "stop": ("attempt", 3), "wait": 1, "dur": 0.7, "shared_exception": shared, "clause": "attempt_budget"})
     # legacy constructors and a custom policy without ``seed``
     for n in (1, 3):
         cs.append({"policy": "constant_legacy", "stop": ("attempt", n), "wait": 1, "dur": 0.0, "clause": "attempt_budget"})
@@ -215,10 +226,19 @@ def check_case(case: dict[str, Any]) -> tuple[dict[str, Any], list[tuple[str, di
     exc_cls = {"ValueError": ValueError, "RuntimeError": RuntimeError}[case.get("exc", "RuntimeError")]
     raised: list[BaseException] = []
 
+    shared_cause = KeyError("cached transport error")
+    shared_instance = RuntimeError("the same failure object every time")
+    shared_instance.__cause__ = shared_cause
+
     def exc_for(i: int) -> BaseException | None:
         if case.get("succeed_at") is not None and i == case["succeed_at"]:
             return None
-        ex = exc_cls(f"fail{i}")
+        if case.get("shared_exception") == "instance":
+            ex: BaseException = shared_instance
+        else:
+            ex = exc_cls(f"fail{i}")
+            if case.get("shared_exception") == "cause":
+                ex.__cause__ = shared_cause
         raised.append(ex)
         return ex
 
@@ -250,6 +270,8 @@ def check_case(case: dict[str, Any]) -> tuple[dict[str, Any], list[tuple[str, di
             w["the_wait_times_out"] = True
     if case.get("sibling"):
         w["another_step_accepts_the_same_event"] = case["sibling"]
+    if case.get("shared_exception"):
+        w["attempts_share_an_exception_object"] = case["shared_exception"]
     desc = f"case={ {k: case[k] for k in case if k not in ('clause',)} }"
     n_exec = len(obs.attempts)
     if obs.stuck or obs.capped:
